@@ -56,10 +56,11 @@ def main():
             shutil.rmtree(wt, ignore_errors=True)
             shutil.rmtree(vd, ignore_errors=True)
         hit = meta["property"] in fired
-        if not hit:
+        documented = bool(meta.get("documented_miss"))
+        if not hit and not documented:
             missed += 1
-        results.append({"seed": name, "target": meta["property"], "reported_by": fired, "reported_by_target": hit})
-        print(f"{'ok  ' if hit else 'MISS'} {name:45s} target={meta['property']} reported_by={','.join(fired) or '-'}")
+        results.append({"seed": name, "target": meta["property"], "reported_by": fired, "reported_by_target": hit, "documented_miss": meta.get("documented_miss")})
+        print(f"{'ok  ' if hit else ('miss (documented)' if documented else 'MISS')} {name:45s} target={meta['property']} reported_by={','.join(fired) or '-'}")
         if "-v" in args:
             for pid, ls in details.items():
                 for l in ls[:1]:
@@ -67,7 +68,7 @@ def main():
         if update:
             meta["reported_by"], meta["reports"], meta["detected_by_target_property"] = fired, details, hit
             json.dump(meta, open(os.path.join(d, "meta.json"), "w"), indent=1)
-    print("seeds not reported by their target property:", missed)
+    print("seeds not reported by their target property (documented misses excluded):", missed)
     if json_out:
         json.dump({"seeds_run": len(results), "missed": missed, "results": results}, open(json_out, "w"))
     return 1 if (only_for and missed) else 0
